@@ -556,6 +556,16 @@ void run_pool(const Plan& p) {
     }
     if (s.pool->free_object_number() != s.n) fail("lost", "inject", "free_object_number() = %zu after injecting %zu objects", s.pool->free_object_number(), s.n);
   }
+  // burn-in (rare shape): cycle one object through the pool until the slot
+  // versions of its queue are a few tickets below the 16-bit wrap
+  int64_t burn = std::max<int64_t>(0, std::min<int64_t>(p.get("burn", 0), 70000));
+  for (int64_t i = 0; i < burn; i++) {
+    Handle h = s.pool->pop();
+    if (!h) fail("null-pop", "pop", "pop() returned an empty pointer");
+    got_object(0, std::move(h), "pop");
+    return_object(0, 0, (int)(i & 1));
+  }
+  if (burn) probe("version_wrap_burn_in");
   sim::drain();
   for (int phase = 0; phase < 2; phase++) {
     run_phase(p, phase);
@@ -656,6 +666,12 @@ void gen(Rng& r, Plan& p, const GenParams& gp) {
   } else {
     p.cfg["n"] = r.range(1, 3);
     p.cfg["recycler"] = r.chance(3, 4);
+    if (r.chance(1, gp.thorough ? 60 : 120)) {
+      int64_t n = r.range(1, 2);
+      p.cfg["n"] = n;
+      p.cfg["burn"] = 32768 * n - (int64_t)r.below((uint64_t)(2 * n + 3));
+      p.cfg["max_steps"] = 40000000;
+    }
     for (int t = 1; t <= nthreads + second; t++) {
       int phase = t > nthreads;
       int nops = (int)r.range(3, gp.thorough ? 10 : 8);
